@@ -70,10 +70,12 @@ def _set_contents(obj, contents):
 
 
 class _WorkerState:
-    """Process-local state of one simulated worker."""
+    """Process-local state of one simulated worker.  numpy's legacy global stream is inherited at fork;
+    CPython re-seeds the global `random` instance of every forked child from OS entropy, so a worker's
+    `random` stream is arbitrary - here: decided by the simulator."""
 
-    def __init__(self, tracked):
-        self.py_random = random.getstate()
+    def __init__(self, tracked, py_seed):
+        self.py_random = random.Random(py_seed).getstate()
         self.np_random = np.random.get_state()
         self.shadow = {}
         for mod, name in tracked:
@@ -127,9 +129,10 @@ class SimPool:
     def __init__(self, sim, nworkers, cfg=None):
         self.sim = sim
         self.n = max(1, int(nworkers))
+        self.ncpus = self.nodes = self.n        # attributes a pathos ProcessingPool exposes
         self.cfg = cfg or {}
         self.tracked = _module_containers()
-        self.workers = [_WorkerState(self.tracked) for _ in range(self.n)]
+        self.workers = [_WorkerState(self.tracked, sim.d.draw('pool.worker_random', 2 ** 30)) for _ in range(self.n)]
         self.idle = list(range(self.n))
         self.queue = collections.deque()
         self.amap_calls = 0
@@ -227,7 +230,7 @@ class SimPool:
         chunks = [items[i:i + chunksize] for i in range(0, len(items), chunksize)] if chunksize else []
         res = SimAsyncResult(self, len(chunks))
         res.amap_id = amap_id
-        self.sim.trace.log('amap', amap_id, len(items), chunksize, len(chunks))
+        self.sim.trace.log('amap', amap_id, len(items), chunksize, len(chunks), hashlib.blake2b(repr(items).encode(), digest_size=8).hexdigest())
         self.sim.yield_point('amap')
         for ci, chunk in enumerate(chunks):
             self.queue.append((res, ci, f, chunk, star))
